@@ -111,3 +111,61 @@ func VerifWithTicket(cs *ClientSessionState, ticket []byte) *ClientSessionState 
 func VerifSessionInfo(cs *ClientSessionState) (vers, suite uint16, masterSecret []byte) {
 	return cs.vers, cs.cipherSuite, append([]byte(nil), cs.masterSecret...)
 }
+
+// VerifUnmarshalHandshake feeds data (a whole handshake message, header included) to the hand-written
+// parser of its message type, as readHandshake would; gm selects the GMSSL CertificateRequest form.
+func VerifUnmarshalHandshake(data []byte, gm bool, vers uint16) (known bool, ok bool) {
+	if len(data) < 4 {
+		return false, false
+	}
+	var m handshakeMessage
+	switch data[0] {
+	case typeHelloRequest:
+		m = new(helloRequestMsg)
+	case typeClientHello:
+		m = new(clientHelloMsg)
+	case typeServerHello:
+		m = new(serverHelloMsg)
+	case typeNewSessionTicket:
+		m = new(newSessionTicketMsg)
+	case typeCertificate:
+		m = new(certificateMsg)
+	case typeCertificateRequest:
+		if gm {
+			m = &certificateRequestMsgGM{}
+		} else {
+			m = &certificateRequestMsg{hasSignatureAndHash: vers >= VersionTLS12}
+		}
+	case typeCertificateStatus:
+		m = new(certificateStatusMsg)
+	case typeServerKeyExchange:
+		m = new(serverKeyExchangeMsg)
+	case typeServerHelloDone:
+		m = new(serverHelloDoneMsg)
+	case typeClientKeyExchange:
+		m = new(clientKeyExchangeMsg)
+	case typeCertificateVerify:
+		m = &certificateVerifyMsg{hasSignatureAndHash: vers >= VersionTLS12}
+	case typeNextProtocol:
+		m = new(nextProtoMsg)
+	case typeFinished:
+		m = new(finishedMsg)
+	default:
+		return false, false
+	}
+	return true, m.unmarshal(append([]byte(nil), data...))
+}
+
+// VerifDecryptTicket runs the server's ticket decryption and session-state parser on ticket under cfg's keys.
+func VerifDecryptTicket(cfg *Config, ticket []byte) bool {
+	cfg.serverInitOnce.Do(func() { cfg.serverInit(nil) })
+	c := &Conn{config: cfg}
+	_, ok := c.decryptTicket(append([]byte(nil), ticket...))
+	return ok
+}
+
+// VerifSessionStateUnmarshal runs the session-state parser directly.
+func VerifSessionStateUnmarshal(data []byte) bool {
+	var s sessionState
+	return s.unmarshal(append([]byte(nil), data...))
+}
